@@ -41,6 +41,8 @@ func checkC10(c *Ctx) {
 	}
 	// session state lives in the store the broker was configured with
 	c.providerWiring(true, false)
+	// answers computed once and kept are reset by every update of what they were computed from
+	c.memoisedViews()
 }
 
 // sessionLookupFn: the Server method that looks a session up and creates one.
